@@ -192,11 +192,14 @@ TABLE = {
             "instantiated; a bare parameter is bound to the program's argument; repeated parameters must match equal "
             "values, equal values are accepted; two parameters in one argument are refused; non-template / template "
             "program / version / target / operation count / a gate-or-mode-list label missing from the program are "
-            "rejected with TemplateError. Partial: uniqueness of the label-preserving isomorphism (so that networkx's "
-            "choice is irrelevant) is checked by the oracle on randomly reordered instances, not proved. Oracle: "
-            "match(t, reorder(t(**v))) recovers v; five structural edits rejected.",
+            "rejected with TemplateError; UNIQUENESS of the isomorphism (C17_isomorphism_unique, "
+            "C17_matcher_choice_irrelevant): between the dependency graphs of programs whose operations each act on a "
+            "mode, every label- and edge-preserving bijection maps the k-th operation with a (gate, modes) label to the "
+            "k-th operation with that label, i.e. equals the canonical isomorphism the model's matchTemplate uses, so "
+            "networkx's search order cannot matter. Oracle: match(t, reorder(t(**v))) recovers v; six single "
+            "structural edits rejected.",
             "Lean 4 proof (field arithmetic with Mathlib) + correspondence", "DESIGN.md 7 (C17)",
-            "SymPy's solve and networkx's VF2 are contract boundaries; exact comparison of recovered floats is an open finding."),
+            "SymPy's solve is a contract boundary (affine arguments are solved in the model); that networkx returns a genuine isomorphism when one exists is observed, not proved; exact comparison of recovered floats is an open finding."),
     "C18": (True,
             "Theorem (Props/C18.lean, Lemmas/ParseScript.lean): for every script (metadata with options and includes, "
             "scalar and array declarations, statements with every argument form and bracket style, loops) and EVERY "
